@@ -174,8 +174,8 @@ CHECKS = {
     "C17": {
         "level": "exploration",
         # every case runs in a child process of its own (1x, or 4x when a begin timed out in the lock queue)
-        "quick": {"shards": 16, "rounds": 1, "checks": 200, "timeout": 900},
-        "thorough": {"shards": 16, "rounds": 4, "checks": 450, "timeout": 3000},
+        "quick": {"shards": 16, "rounds": 1, "checks": 240, "timeout": 900},
+        "thorough": {"shards": 16, "rounds": 4, "checks": 600, "timeout": 3000},
         "shrinktime": "60s",
         "assumptions": [
             "liveness is decided with a bound: a begin that nothing legitimately stands in the way of must return within 5 s (normal: microseconds); the bound drops to 1 s only after a still-active transaction has been shown to be unreachable for every client, registry entry and goroutine",
